@@ -4,28 +4,8 @@ import json, os, subprocess
 V = os.path.dirname(os.path.dirname(os.path.abspath(__file__)))
 hooks = subprocess.run(['git','-C','/repo','log','--format=%H','--grep=^verif hooks'],capture_output=True,text=True).stdout.split()
 
-# id -> (category, technique, level text, level note, design section)
-CHECKS = {
- 'C04': ('exploration', 'complete enumeration of the finite key space on the real context',
-         'Complete enumeration (exhaustive: true) of 65 536 key codes x 12 modifier bytes x number-pad on/off x 3 layouts x {idle, after a consonant} x {suggestions off, on}; every press compared with the layout JSON through the harness\'s own key table. The space in the statement is finite, so this decides it for the supplied layouts.',
-         'Trusts serde_json for reading the layout, the harness key table transcribed from riti.h, and the state-restore hook.', '4/C04'),
- 'C12': ('model_checking', 'explicit-state BFS over the real FixedMethod vs a reference step function',
-         'Explicit-state BFS over the real fixed method (state = full snapshot, transition = real key/backspace call), closed at composition length 4 (quick) / 5 (thorough) over a 25-symbol alphabet with one representative per character class, for all 16 helper settings; on every transition the returned text is compared with a reference step() written from the statement.',
-         'Bounded by the alphabet (one representative per class) and the length bound; the reference step() is the harness\'s reading of the statement; inputs for which the statement defines no result are counted as unspecified.', '4/C12'),
-}
-CHECKS.update({
- 'C13': ('model_checking', 'explicit-state BFS over the real FixedMethod, reph key judged in every state',
-         'Explicit-state BFS over the real fixed method over a 17-symbol alphabet (reph key included), closed at composition length 5 (quick) / 6 (thorough), under 16 settings of the other helpers with old reph on and again off. The reph key is judged in every state: conservation (single insertion of the reph) everywhere, placement against a syllable-grammar reference on every well-formed text, plain append with the option off.',
-         'Bounded by alphabet and length; the grammar and placement rule are the reading of the statement by the harness; texts outside the grammar get the conservation clause only.', '4/C13'),
- 'C14': ('model_checking', 'exhaustive enumeration of syllable words typed into paired real contexts (differential)',
-         'Every word of <= 2 syllable units over a 1 515-unit set (conjuncts via hasanta / ro-fola / zo-fola, all sign kinds incl. two-part signs, chandrabindu, reph) and, in the thorough tier, <= 3 units over a reduced set, typed in typewriter order with the option on and in Unicode order with it off under all 16 settings of the other helpers; texts must be equal. Every waiting-sign point is checked for not-shown / ongoing / discarded-by-one-backspace.',
-         'Differential oracle (no expected value): a bug common to both orders is invisible here (C12 covers the Unicode-order side). Bounded by the unit set and word length.', '4/C14'),
-})
-CHECKS.update({
- 'C01': ('model_checking', 'explicit-state / history BFS over the real context under catch_unwind',
-         'Bounded exhaustive exploration of real API call sequences with the oracle "returns normally, result fully readable, < 2 s": fixed-method state graph over a 40-event class alphabet under all 2^10 option combinations (length 2/3) and the 64 composition-option combinations (length 3/4); fixed history graph with suggestions on (34 configurations); all 111 published keys x 4 modifiers x 3 selection bytes from 13/12 representative states under 16 phonetic and 544 fixed configurations; phonetic history graph with commit of every index, restart, update-engine and the text-less keypad keys to depth 4/5 (18 configurations) and again from 386 learned states; long-word families to 100/300 characters.',
-         'Bounded by alphabets (one key per class), depths and the representative states of part (b); a panic caught at the Rust API is taken as an abort at the C ABI; aborts that bypass unwinding (stack overflow, OOM) end the run as a machinery error.', '4/C01'),
-})
+# what is claimed, per property: bin/checks.json  {id: {category, technique, text, note, design_ref}}
+CHECKS = {k: (v['category'], v['technique'], v['text'], v['note'], v['design_ref']) for k, v in json.load(open(os.path.join(V, 'bin', 'checks.json'))).items()}
 NOT_YET = {}
 props = [json.loads(l) for l in open(os.path.join(V,'properties.jsonl'))]
 checks = []
